@@ -2,11 +2,32 @@
   C14 — Every task's epic reference names a live epic.
 -/
 import ErgoProofs.Lemmas.ReachInv
+import ErgoProofs.Lemmas.PropsAux
 namespace Ergo
 
 /-- at all times each task's epic is empty or the id of an existing, unpruned epic; epics belong to nothing -/
 theorem C14_inv_reach (log : List Event) (h : ReachOK log) : ∃ g, replay log = .ok g ∧ Inv14 g ∧ WF g := by
   obtain ⟨g, hr, hinv⟩ := reach_replay log h
   exact ⟨g, hr, hinv.i14, hinv.ok.wf⟩
+
+/-- updating a task with an epic id that is pruned, unknown, or the id of a plain task is rejected (nothing is written) -/
+theorem C14_set_rejects_bad_epic (g : Graph) (t : Task) (e : Id) (r : SetReq) (agent : String) (po : PathOutcome) (now : Time)
+    (ht : t.isEpic = false) (he : e ≠ "") (hr : r.u.epic = some e) (hres : r.resultPath = none)
+    (hbad : g.tombed e = true ∨ g.find? e = none ∨ ∃ x, g.find? e = some x ∧ x.isEpic = false) :
+    ∃ err, updateEvents g t r agent po now = .error err :=
+  set_rejects_bad_epic g t e r agent po now ht he hr hres hbad
+
+/-- creating a task under an id that is unknown, pruned or a plain task is rejected -/
+theorem C14_create_rejects_bad_epic (g : Graph) (epicId title body : String) (follow : SetReq) (ids : List Id) (uuid agent : String)
+    (po : PathOutcome) (now : Time) (he : epicId ≠ "")
+    (hbad : g.find? epicId = none ∨ ∃ x, g.find? epicId = some x ∧ x.isEpic = false) :
+    ∃ err, secCreate g false epicId title body follow ids uuid agent po now = .error err :=
+  create_rejects_bad_epic g epicId title body follow ids uuid agent po now he hbad
+
+/-- prune never removes an epic that a remaining task still references -/
+theorem C14_prune_keeps_referenced_epics (g : Graph) (hwf : WF g) (t e : Task) (ht : t ∈ g.tasks) (he : e ∈ g.tasks)
+    (hte : t.isEpic = false) (hee : e.isEpic = true) (href : t.epicId = e.id) (hne : e.id ≠ "")
+    (hkeep : t.id ∉ pruneTargets g) : e.id ∉ pruneTargets g :=
+  prune_keeps_referenced_epics g hwf t e ht he hte hee href hne hkeep
 
 end Ergo
